@@ -23,6 +23,20 @@ type c19Case struct {
 	// Shared: masks (and values) that are prefixes of one another are handed in as prefixes of
 	// ONE array (same start address, different lengths), as an opcode table sharing its masks does
 	Shared bool `json:"shared,omitempty"`
+	// Big: a large pattern set; the inputs are all 2-byte strings with the first byte in 0..3
+	// or 0x12 and any second byte, plus their 1-byte prefixes
+	Big bool `json:"big,omitempty"`
+}
+
+func c19BigStrs() [][]byte {
+	var out [][]byte
+	for _, b0 := range []byte{0, 1, 2, 3, 0x12} {
+		out = append(out, []byte{b0})
+		for b1 := 0; b1 < 256; b1++ {
+			out = append(out, []byte{b0, byte(b1)})
+		}
+	}
+	return out
 }
 
 type patOp struct {
@@ -84,6 +98,9 @@ var c19Strs = c19Strings()
 
 func c19Run(c c19Case) (*eng.Fail, bool) {
 	strs := c19Strs
+	if c.Big {
+		return c19RunOn(c, c19BigStrs())
+	}
 	if c.Suffix > 0 {
 		orig := c
 		c = c19Case{}
@@ -196,7 +213,7 @@ func c19RunOn(c c19Case, strs [][]byte) (*eng.Fail, bool) {
 
 func init() {
 	checks["C19"] = eng.Check{
-		Rule: "patterns: every (bytes, mask) of length 1..2 over the byte alphabet {00,01,10,11} (two independent bit lanes; includes masks with zero last byte) plus empty / length-mismatched ones; every ordered set of <=2 patterns (quick) and <=3 patterns from a reduced pattern list (thorough: 3 from all length-1 patterns and a length-2 subset); NewMatcher must succeed iff all well formed and no two patterns are simultaneously matchable; on success Match(s) for every byte string s of length 0..3 over the alphabet must return the unique matching pattern or none. Every set is also run with 8 (thorough also 7 and 12) fully masked bytes appended to every pattern and input (patterns of 9..14 bytes, inputs with and without the last byte), and with masks / values that are prefixes of one another handed in as prefixes of one array. Non-trivial = set that builds successfully.",
+		Rule: "patterns: every (bytes, mask) of length 1..2 over the byte alphabet {00,01,10,11} (two independent bit lanes; includes masks with zero last byte) plus empty / length-mismatched ones; every ordered set of <=2 patterns (quick) and <=3 patterns from a reduced pattern list (thorough: 3 from all length-1 patterns and a length-2 subset); NewMatcher must succeed iff all well formed and no two patterns are simultaneously matchable; on success Match(s) for every byte string s of length 0..3 over the alphabet must return the unique matching pattern or none. Every set is also run with 8 (thorough also 7 and 12) fully masked bytes appended to every pattern and input (patterns of 9..14 bytes, inputs with and without the last byte), and with masks / values that are prefixes of one another handed in as prefixes of one array. Plus a set of 64 patterns in four mask groups of 16 (and prefixes of 32..36 of it) in sorted, reversed, interleaved and every rotated order, matched against 1285 strings. Non-trivial = set that builds successfully.",
 		Run: func(r *eng.Run) {
 			var pats []c19Pat
 			for _, b := range c19Alpha {
@@ -261,6 +278,34 @@ func init() {
 						do(c19Case{Pats: []c19Pat{tri[i], tri[j], tri[k]}, Suffix: 8})
 					}
 				}
+			})
+			// large sets (more patterns than a library sort handles by insertion, several mask groups
+			// of more than 12 patterns each) in sorted, reversed, interleaved and every rotated order
+			var big []c19Pat
+			for v := 0; v < 16; v++ {
+				big = append(big,
+					c19Pat{[]byte{0x00, byte(v * 3)}, []byte{0xff, 0xff}},  // group 1: exact second byte
+					c19Pat{[]byte{0x01, byte(v << 4)}, []byte{0xff, 0xf0}}, // group 2: high nibble
+					c19Pat{[]byte{0x02, byte(v)}, []byte{0x0f, 0x0f}},      // group 3: low nibbles
+					c19Pat{[]byte{0x03 | byte(v)<<4}, []byte{0xff}},        // group 4: one byte
+				)
+			}
+			nb := len(big)
+			permOf := func(f func(i int) int) []c19Pat {
+				out := make([]c19Pat, nb)
+				for i := range out {
+					out[i] = big[f(i)]
+				}
+				return out
+			}
+			bigOrders := [][]c19Pat{big, permOf(func(i int) int { return nb - 1 - i }), permOf(func(i int) int { return (i*4 + i/16) % nb })}
+			for k := 1; k < nb; k++ {
+				k := k
+				bigOrders = append(bigOrders, permOf(func(i int) int { return (i + k) % nb }))
+			}
+			r.Par(len(bigOrders), func(i int) {
+				do(c19Case{Pats: bigOrders[i], Big: true})
+				do(c19Case{Pats: bigOrders[i][:nb/2+i%5], Big: true})
 			})
 			r.Sample(c19Case{Pats: []c19Pat{{[]byte{0x01}, []byte{0x01}}, {[]byte{0x10}, []byte{0x10}}}})
 			r.Sample(c19Case{Pats: []c19Pat{{[]byte{0x01, 0x10}, []byte{0x11, 0x10}}, {[]byte{0x00}, []byte{0x01}}}, Suffix: 8})
